@@ -670,8 +670,11 @@ class Watcher(object):
                 logger.debug('running %s process [pid %d]', self.name,
                              process.pid)
                 if not self.call_hook('after_spawn', pid=process.pid):
-                    self.kill_process(process)
-                    del self.processes[process.pid]
+                    # the process stays registered until it has been killed
+                    # (the SIGKILL escalation only reaches registered pids)
+                    def _forget(_future, pid=process.pid):
+                        self.processes.pop(pid, None)
+                    self.loop.add_future(self.kill_process(process), _forget)
                     return False
 
             # catch ValueError as well, as a misconfigured rlimit setting could
